@@ -11,7 +11,7 @@ import math
 
 import numpy as np
 
-from ..core import import_library
+from ..core import describe, import_library
 from ..gen import engines as E
 from ..probe import Probe, Reach, plain_function
 
@@ -99,7 +99,7 @@ class ReplayMonitor:
         if st is None:
             return
         shadow, n = st["shadow"], st["n"]
-        case = {"engine": str(engine), "inputs": st["inputs"], "state_before": [(ov.name, ov.value, ov.previous_value) for ov in shadow.output_variables]}
+        case = {"engine": describe(engine), "inputs": st["inputs"], "state_before": [(ov.name, ov.value, ov.previous_value) for ov in shadow.output_variables]}
         ctx.evaluated()
         # replay row by row with plain floats
         per_row, float_exc = [], None
@@ -182,7 +182,7 @@ class ReplayMonitor:
             ctx.hit(f"defuzzifier:{type(ov.defuzzifier).__name__}")
             ctx.hit(f"setting:lp={int(bool(ov.lock_previous))},default={'nan' if math.isnan(ov.default_value) else 'set'},lr={int(bool(ov.lock_range))}")
         if n >= 2 and (interesting or nan_then_value):
-            ctx.nontrivial(str(engine), tuple(tuple(rows_of(a)) for a in st["inputs"]), tuple((rows_of(v), rows_of(p)) for _, v, p in case["state_before"]).__repr__())
+            ctx.nontrivial(describe(engine), tuple(tuple(rows_of(a)) for a in st["inputs"]), tuple((rows_of(v), rows_of(p)) for _, v, p in case["state_before"]).__repr__())
 
 
 def batch_rows(rnd, spec, n):
@@ -285,7 +285,7 @@ def run(ctx):
                     pass  # judged by the monitor
                 history.append({"way": way, "rows": rows[:4]})
             if i < 2:
-                ctx.sample("history", {"fll": str(engine), "history": history, "outputs": [ov.value for ov in engine.output_variables]})
+                ctx.sample("history", {"fll": describe(engine), "history": history, "outputs": [ov.value for ov in engine.output_variables]})
         from . import c01
 
         c01.examples(ctx, fl)
